@@ -1,6 +1,7 @@
 """C17 - concurrent sessions do not interfere with each other."""
 
 import asyncio
+import os
 import random
 import time
 
@@ -106,6 +107,11 @@ async def run_world(net, plan, which, cut=None):
                 "rmd_and_back": [["connect"], ["login"], ["cmd", f"MKD {P_}/di"], ["cmd", f"RMD {P_}/di"], ["cmd", f"RNFR {P_}/di"],
                                  ["cmd", f"MKD {P_}/d"], ["cmd", f"RNFR {P_}/d"], ["cmd", f"RNTO {P_}/d2"], ["cmd", f"RMD {P_}/d2"], ["quit"]],
                 "dwell": [["connect"], ["login"], ["cmd", f"CWD {P_}/dir"], ["sleep", 0.06], ["cmd", "PWD"], ["cmd", "CDUP"], ["sleep", 0.02], ["quit"]],
+                # commands that are refused: for want of a login (first script), for want of RNFR / of a passive listener (second)
+                "refused_nologin": [["connect"], ["cmd", f"RNTO {P_}/x"], ["cmd", f"LIST {P_}"], ["cmd", f"RETR {P_}/f.bin"], ["cmd", f"STOR {P_}/y"],
+                                    ["cmd", f"MLSD {P_}"], ["cmd", "PASV"], ["quit"]],
+                "refused_loggedin": [["connect"], ["login"], ["cmd", f"RNTO {P_}/x"], ["cmd", f"LIST {P_}"], ["cmd", f"RETR {P_}/f.bin"],
+                                     ["cmd", f"STOR {P_}/y"], ["cmd", f"MLSD {P_}"], ["cmd", "PWD"], ["quit"]],
             }
             sc = local_scripts[plan["scripts"][i]] if plan["scripts"][i] in local_scripts else corpus(P_)[plan["scripts"][i]]
             if plan.get("bases") or plan.get("shared_base"):
@@ -342,6 +348,20 @@ def run_case(case):
         n = len(plan["scripts"])
         solos = []
         for i in range(n):
+            if plan.get("fresh_solo"):
+                # the reference run in a process of its own: nothing an earlier session of THIS process left behind (class or
+                # module level state of the library) can be in it
+                import json as json_, subprocess, sys
+                pr = subprocess.run([sys.executable, "-m", "harness.checks.c17", "--solo", json_.dumps(plan), str(i)], capture_output=True,
+                                    text=True, timeout=300, cwd=os.path.dirname(os.path.dirname(os.path.dirname(os.path.abspath(__file__)))))
+                try:
+                    ref = json_.loads(pr.stdout.strip().splitlines()[-1])
+                except Exception:
+                    return {"inconclusive": f"fresh-process solo run failed: rc={pr.returncode} {pr.stderr[-300:]}"}
+                out["monitors"]["fresh_process_solo"] = out["monitors"].get("fresh_process_solo", 0) + 1
+                tree_ = {k: (bytes.fromhex(v[4:]) if isinstance(v, str) and v.startswith("hex:") else v) for k, v in ref["tree"].items()}
+                solos.append(([{"transcript": ref["transcript"], "downloads": ref["downloads"]}], tree_))
+                continue
             async def main(net, hyg, i=i):
                 return await run_world(net, plan, [i])
             res, info = W.run(main, seed=plan["seed"], net_kwargs=dict(latency=0.001))
@@ -506,5 +526,24 @@ def gen_cases(tier, seed):
                               "backend_delay": [0, 0.0006] if gap else None})
     for ops in (["upload"], ["download", "upload"], ["list", "download"], ["cd", "list", "upload"]):
         plans.append({"clients": True, "two_lives": True, "seed": seed, "ops": ops, "prefixes": ["/s0"], "scripts": ["client"]})
+    # refusals for different reasons in two sessions, each compared with its solo run in a fresh process
+    for order in (["refused_nologin", "refused_loggedin"], ["refused_loggedin", "refused_nologin"]):
+        plans.append({"seed": seed, "scripts": order, "prefixes": ["/s0", "/s1"], "users": ["anon", "anon"], "offsets": [0, 0.05],
+                      "lat": [0.001], "mss": [1460], "backend_delay": None, "fresh_solo": True})
     per = 6
     return [{"plans": plans[i:i + per]} for i in range(0, len(plans), per)]
+
+
+if __name__ == "__main__":
+    import json as _json, sys as _sys
+    if _sys.argv[1:2] == ["--solo"]:
+        _plan, _i = _json.loads(_sys.argv[2]), int(_sys.argv[3])
+        pin_clocks()
+
+        async def _main(net, hyg):
+            return await run_world(net, _plan, [_i])
+        _res, _info = W.run(_main, seed=_plan["seed"], net_kwargs=dict(latency=0.001))
+        if _res is None:
+            print(_json.dumps({"error": str(_info)[:500]}))
+            _sys.exit(2)
+        print(_json.dumps({"transcript": _res[0][0]["transcript"], "downloads": _res[0][0]["downloads"], "tree": {k: ("hex:" + bytes(v).hex() if isinstance(v, (bytes, bytearray)) else v) for k, v in _res[1].items()}}))
